@@ -84,5 +84,7 @@ Definition wf_ctx (c : ctx) : bool :=
   init_ok (c_header c) (c_hdr_init c) && init_ok (c_trailer c) (c_trl_init c) &&
   list_eqb (map (fun e => fst (snd e)) (c_hdr_init c)) [Common_BeginString; Common_BodyLength; Common_MsgType] &&
   list_eqb (map (fun e => fst (snd e)) (c_trl_init c)) [Common_CheckSum] &&
+  match c_hdr_init c with (_, (_, v)) :: _ => list_eqb v (c_begin c) | [] => false end &&   (* 8 = BeginString *)
+  match find_be (c_fields c) Common_BodyLength with Some ty => is_int_type ty | None => false end &&
   forallb (fun tr => negb (t_group tr)) (g_traits (c_trailer c)) &&      (* no repeating group in the trailer *)
   forallb (fun md => wf_body c (md_meta md)) (c_msgs c).
